@@ -191,6 +191,37 @@ def attempt_rows(build, limit=None):
             return r
 
 
+class SecondPassDiffers(Raised):
+    """outcome of reading one view twice when the second pass is not the first (reported through the same channel as an
+    exception: the judges turn any Raised into a violation)"""
+
+    def __init__(self, first, second):
+        self.type = 'SecondPassDiffers'
+        self.text = 'SecondPassDiffers: the same view, read again, gave %s after %s' % (
+            short(second.text if isinstance(second, Raised) else second, 300), short(first, 300))
+        self.partial = first
+        self.where = []
+
+
+TWICE = [0]      # number of views read twice (evidence counter, read by the checks that use attempt_rows_twice)
+
+
+def attempt_rows_twice(build):
+    """build() -> view; the view is read twice (C01 for the argument forms the catalogue does not vary): returns the rows
+    of the first pass, a Raised, or SecondPassDiffers"""
+    v = attempt(build)
+    if isinstance(v, Raised):
+        return v
+    first = attempt_rows(lambda: v)
+    if isinstance(first, Raised):
+        return first
+    second = attempt_rows(lambda: v)
+    TWICE[0] += 1
+    if isinstance(second, Raised) or crows(second) != crows(first):
+        return SecondPassDiffers(first, second)
+    return first
+
+
 def short(obj, n=400):
     s = repr(obj)
     return s if len(s) <= n else s[:n] + '...<%d more>' % (len(s) - n)
